@@ -55,11 +55,7 @@ package compile
 //@   loop 1 invariant c.filter == old(c.filter) && forall(k, 0, len(children), old(c.filter) == nil || apply_filter(old(c.filter), children[k]))
 // error reports a compile error by panicking (caught by Compiler.recover): it never returns.
 //@ func (*Compiler).error
-//@   modifies *
-//@   keeps map[string]bool
-//@   keeps map[parse.Node]bool
-//@   keeps Compiler.typedefChain
-//@   preserves c.filter
+//@   requires n != nil
 //@   ensures false
 //@ func (*Compiler).buildListChildren
 //@   requires c != nil
@@ -105,8 +101,7 @@ package compile
 // Range restrictions (C13): a set of ranges that is returned normally is ordered and disjoint:
 // every range has start <= end, starts ascend, and each range begins after the previous one ends.
 //@ func (*Compiler).validateRangeBoundaries
-//@   requires comp != nil && ranges != nil && rb_len(ranges) >= 1
-//@   modifies *
+//@   requires comp != nil && ranges != nil && rb_len(ranges) >= 1 && node != nil
 //@   ensures forall(k, 0, rb_len(ranges), !rb_lt(ranges, rb_end(ranges, k), rb_start(ranges, k)))
 //@   ensures forall(k, 1, rb_len(ranges), !rb_gt(ranges, rb_start(ranges, k-1), rb_start(ranges, k)) && rb_lt(ranges, rb_end(ranges, k-1), rb_start(ranges, k)))
 //@   loop 0 invariant 1 <= i && forall(k, 0, i, !rb_lt(ranges, rb_end(ranges, k), rb_start(ranges, k)))
@@ -201,3 +196,18 @@ package compile
 //@ func (*Compiler).makeString
 //@   assumed
 //@   modifies *
+
+// ---------------------------------------------------------------------------
+// Length restrictions (C13): the length set of a derived string type is a subset of its base's length set - every
+// value of every new range lies in some range of the base (adjacent base ranges may be spanned) - or compilation
+// ends through c.error; without a length statement the base's set is inherited unchanged.
+//@ define inBase(B, v, hi) = exists(i, 0, hi, B.Lbs[i].Start <= v && v <= B.Lbs[i].End)
+//@ define baseOf(base) = typed(str_lenptr(base), *schema.Length)
+//@ func (*Compiler).getLength
+//@   requires c != nil && base != nil && n != nil
+//@   modifies *
+//@   ensures result == old(baseOf(base)) || (isfresh(result) && forall(k, 0, len(result.Lbs), forallint(v, implies(result.Lbs[k].Start <= v && v <= result.Lbs[k].End, old(inBase(baseOf(base), v, len(baseOf(base).Lbs)))))))
+//@   loop 0 invariant len(lbs) == loopidx + 1 && isfresh(lbs)
+//@   loop 0 invariant baseLen.Lbs == old(baseLen.Lbs) && forall(i, 0, len(baseLen.Lbs), baseLen.Lbs[i] == old(baseLen.Lbs[i]))
+//@   loop 0 invariant forall(k, 0, len(lbs), forallint(v, implies(lbs[k].Start <= v && v <= lbs[k].End, inBase(baseLen, v, len(baseLen.Lbs)))))
+//@   loop 1 invariant implies(loopidx >= 0, lb.Start >= rangeMin && rangeMax == baseLen.Lbs[loopidx].End && forallint(v, implies(rangeMin <= v && v <= rangeMax, inBase(baseLen, v, loopidx+1))))
